@@ -427,6 +427,25 @@ pub fn gen_work(ch: &mut Chooser, kind: Kind, tier: Tier) -> Work {
     } else {
         model_drawn
     };
+    // meshing: every depth a `u8` can hold is a legal setting.  Very deep
+    // octrees are affordable only where nothing is to be found, so one mesh
+    // workload in 80 is `x + 5` (positive over the whole region: a single
+    // empty cell) at depth 21..=255
+    let (depth, model_drawn) = if kind == Kind::Mesh && ch.odds("deep_empty_mesh", 1, 80) {
+        let mut dag = crate::gen_::Dag::default();
+        let x = dag.push(crate::gen_::Ex::X);
+        let c = dag.push(crate::gen_::Ex::C(5.0));
+        let root = dag.push(crate::gen_::Ex::B(crate::gen_::Bin::Add, x, c));
+        sg = ShapeGen {
+            root,
+            dag,
+            nvars: 0,
+            var_values: vec![],
+        };
+        (*ch.pick("deep_depth", &[21u8, 22, 23, 31, 64, 255]), None)
+    } else {
+        (depth, model_drawn)
+    };
     // the 600-800 clause models are meshed to depth 3 at most: a depth-5 JIT
     // build of `bear` costs seconds, and a run executes it a dozen times
     let depth = if kind == Kind::Mesh
